@@ -278,6 +278,8 @@ class S:
                 out.append("<" + show(x[1]) + ".format(" + ", ".join(show(a) for a in x[2]) + ")>")
             elif x[0] == "rep":
                 out.append(repr(x[1]) + "*" + show(x[2]))
+            elif x[0] == "join":
+                out.append(repr(x[1]) + ".join(" + show(x[2][1]) + " for " + show(x[2][3]) + " in " + show(x[2][2]) + ")")
         return "S[" + " ".join(out) + "]"
 
     def __add__(self, o):
@@ -350,7 +352,7 @@ def template_items(s):
             items.append(("rep", tuple(template_items(x[1])), x[2]))
         elif x[0] == "fv":
             items.append(("done", x))
-        elif x[0] == "fmt":
+        else:
             items.append(("done", x))
     merged = []
     for it in items:
@@ -1438,7 +1440,12 @@ class Engine:
         if isinstance(it, tuple) and it and it[0] == "op" and it[1] == "enumerate" and it[2]:
             start = it[2][1] if len(it[2]) > 1 else Lin()
             return ("tuple", (lin(k) + lin(start), self._iter_elem(it[2][0], k, st, lid)))
-        if isinstance(it, tuple) and it and it[0] == "tuple":
+        if isinstance(it, tuple) and it and it[0] == "op" and it[1] == ".items" and len(it[2]) == 1:
+            key = ("elem", ("op", ".keys", it[2]), lin(k))
+            return ("tuple", (key, ("elem", it[2][0], key)))
+        if isinstance(it, tuple) and it and it[0] == "op" and it[1] == ".values" and len(it[2]) == 1:
+            return ("elem", it[2][0], ("elem", ("op", ".keys", it[2]), lin(k)))
+        if isinstance(it, tuple) and it and it[0] == "op" and it[1] == ".keys" and len(it[2]) == 1:
             return ("elem", it, lin(k))
         return ("elem", it, lin(k))
 
@@ -1610,8 +1617,8 @@ class Engine:
                         sv = self.ev(v.format_spec, st)
                         spec = sv.text() if isinstance(sv, S) else None
                     val = self.ev(v.value, st)
-                    if spec == "" and v.conversion == -1 and isinstance(val, S):
-                        parts.extend(val.p)
+                    if spec == "" and v.conversion == -1 and self.is_str(val):
+                        parts.extend(as_S(val).p)
                     else:
                         sp = parse_spec(spec) if spec is not None else None
                         parts.append(("fv", sp.text if sp else spec, val, role_of(v.value)))
@@ -1730,6 +1737,17 @@ class Engine:
             v = self.ev(node.value, st)
             self.assign(node.target, v, st, node)
             return v
+        if isinstance(node, (ast.ListComp, ast.GeneratorExp)) and len(node.generators) == 1 and not node.generators[0].ifs and not node.generators[0].is_async:
+            g = node.generators[0]
+            it = self.ev(g.iter, st)
+            self.loopseq += 1
+            lid = self.loopseq
+            sub = st.fork()
+            k = ("sym", f"<k>@L{lid}")
+            tv = self._iter_elem(it, k, sub, lid)
+            self.assign(g.target, tv, sub, node)
+            elt = self.ev(node.elt, sub)
+            return ("comp", elt, it, tv, lid)
         if isinstance(node, (ast.ListComp, ast.GeneratorExp, ast.SetComp, ast.DictComp, ast.Lambda, ast.Dict, ast.Await, ast.Yield, ast.YieldFrom)):
             return ("op", "<" + type(node).__name__ + ">", (("k", ast.dump(node)),))
         raise Unsupported(f"expression {type(node).__name__}")
@@ -1783,6 +1801,20 @@ class Engine:
             recv = self.ev(node.func.value, st)
         if attr == "format" and recv is not None and self.is_str(recv):
             return self.format(as_S(recv), args, kws, node, st)
+        if attr == "join" and nargs == 1 and not kws:
+            if recv is None and name is not None:
+                recv = self.ev(node.func.value, st)
+            if isinstance(recv, S) and recv.text() is not None:
+                x = args[0]
+                if isinstance(x, tuple) and x and x[0] == "tuple" and all(self.is_str(e) for e in x[1]):
+                    parts = []
+                    for i, e in enumerate(x[1]):
+                        if i:
+                            parts.append(("lit", recv.text()))
+                        parts.extend(as_S(e).p)
+                    return S(parts)
+                if isinstance(x, tuple) and x and x[0] == "comp":
+                    return S((("join", recv.text(), x),))
         if attr == "transpose" and recv is not None and not args:
             return ("op", "T", (recv,))
         if name in ("np.transpose", "numpy.transpose") and nargs == 1:
